@@ -190,6 +190,11 @@ class World:
         self.calls = 0
         code_registry.always_use_cache = cache_mode
         code_registry.last_cost = 0
+        if cache_mode:
+            # codefind fills its cache of "functions that run this code" lazily, by whichever operation asks
+            # first; asking once at the start makes the cache a function of the operations alone
+            for t in (self.p, self.q):
+                code_registry.get_functions(t.orig_code)
 
     def dispose(self):
         if self.as_main and sys.modules.get("__main__") is self.mod:
@@ -326,7 +331,12 @@ class System:
 
             stack = I.stack_state(t.fn)
             cur = t.fn.__code__
-            out.append((stack, cur is t.orig_code, listed(t.orig_code), listed(cur)))
+            if self.cache_mode:
+                out.append((stack, cur is t.orig_code, listed(t.orig_code), listed(cur)))
+            else:
+                # without always_use_cache codefind scans for the functions at every request: what its
+                # cache holds is not read by anything
+                out.append((stack, cur is t.orig_code))
         return (tuple(out), tuple(sorted(w.probes)))
 
     def invariant(self, w, m):
